@@ -342,16 +342,13 @@ theorem resolveConstant_guess (st : Static) (defs defs' : Defs) (c : RCtx) (ref 
       rw [he] at h
       rw [resolverEval_mono st defs c {} e _ he]
       simp only at h ⊢
-      rcases ite_inv _ _ _ _ h with ⟨hs, h⟩ | ⟨hs, h⟩
-      · have hs' : (st.opts.optStatic && (guessOf c).first && (defs.sym ref).known) = true := hs
-        rw [if_pos hs']; exact ⟨true, rep, h⟩
-      · have hs' : ¬ (st.opts.optStatic && (guessOf c).first && (defs.sym ref).known) = true := hs
-        rw [if_neg hs']
-        rcases ite_inv _ _ _ _ h with ⟨_, h⟩ | ⟨hc, h⟩
-        · injection h with h; injection h with _ h2; injection h2 with h2 _; cases h2
-        · injection h with h; injection h with h1 _
-          rw [← h1]
-          exact exists_of_ite _ _ _ _
+      have hfst : (guessOf c).first = c.first := rfl
+      rw [hfst]
+      rcases ite_inv _ _ _ _ h with ⟨_, h⟩ | ⟨hc, h⟩
+      · injection h with h; injection h with _ h2; injection h2 with h2 _; cases h2
+      · injection h with h; injection h with h1 _
+        rw [← h1]
+        exact exists_of_ite _ _ _ _
 
 /-- the choice among the resolutions: what a strict pass chooses, a guessing pass chooses too -/
 theorem chooseEncoding_guess (rs : List Resolution) (encs : List (Nat × BI)) (rep : List String)
